@@ -50,9 +50,31 @@ def run_property(pid, tier, seed):
     sc = None
     try:
         sc = scratch.make_scratch(pid.lower())
+        # ---------------- engine M ----------------
+        m_sel = props.m_harnesses(pid, tier)
+        if m_sel:
+            import mrun
+            print(f"[{time.time()-t0:6.0f}s] engine M: {len(m_sel)} harness(es)", flush=True)
+            for ob, viol in mrun.run(pid, tier, seed, sc, m_sel):
+                if viol:
+                    native_validations += viol.get("native_runs", 0)
+                    if not viol.get("reproduced"):
+                        ob["verdict"] = "inconclusive"
+                        ob["why"] = "counterexample did not reproduce natively: " + viol.get("why", "")
+                    else:
+                        kf = match_known(known, pid, viol["key"])
+                        if kf:
+                            known_hits.append(dict(id=kf.get("id"), what=kf["what"], obligation=ob["name"]))
+                            ob["verdict"] = "known-finding"
+                        else:
+                            path = save_replay(pid, viol["payload"])
+                            violations.append(dict(obligation=ob["name"], replay=path, what=viol["key"]))
+                native_validations += ob.pop("native_validations", 0)
+                obligations.append(ob)
         # ---------------- engine K ----------------
         k_sel = props.k_harnesses(pid, tier, os.path.join(HERE, "kani-harness", "src"))
         if k_sel:
+            print(f"[{time.time()-t0:6.0f}s] engine K: {len(k_sel)} harness(es)", flush=True)
             info = scratch.apply_k_rewrites(sc)
             kh = scratch.setup_k_crate(sc)
             kcfg = props.K_TIERS[tier]
@@ -65,14 +87,14 @@ def run_property(pid, tier, seed):
                           bound=hmeta.get("bound", "see harness source"),
                           functions=hmeta.get("functions", []),
                           queries=r.get("n_checks", 0),
-                          paths=r.get("stats", {}).get("vccs_remaining", 0),
-                          solver_s=r.get("stats", {}).get("runtime_decision_procedure_s", 0),
+                          paths=(r.get("stats") or {}).get("vccs_remaining", 0),
+                          solver_s=(r.get("stats") or {}).get("runtime_decision_procedure_s", 0),
                           wall_s=r.get("duration_s"), covers=list(r.get("covers", (0, 0))),
                           nonvacuous=r.get("covers", (0, 0))[0] > 0,
                           sample=dict(harness=h, verdict=r["verdict"],
                                       cover_witnesses_satisfied=r.get("covers", (0, 0))[0],
                                       checks=r.get("n_checks", 0),
-                                      cbmc=r.get("stats", {})))
+                                      cbmc=(r.get("stats") or {})))
                 if r["verdict"] == "fail":
                     descs = sorted({f'{c.get("description","")} @ {c.get("location",{}).get("file","")}:'
                                     f'{c.get("location",{}).get("line","")}' for c in r["failed_checks"]
@@ -98,26 +120,6 @@ def run_property(pid, tier, seed):
                             ob["verdict"] = "known-finding"
                         else:
                             violations.append(dict(obligation=h, replay=path, what=descs))
-                obligations.append(ob)
-        # ---------------- engine M ----------------
-        m_sel = props.m_harnesses(pid, tier)
-        if m_sel:
-            import mrun
-            for ob, viol in mrun.run(pid, tier, seed, sc, m_sel):
-                if viol:
-                    native_validations += viol.get("native_runs", 0)
-                    if not viol.get("reproduced"):
-                        ob["verdict"] = "inconclusive"
-                        ob["why"] = "counterexample did not reproduce natively: " + viol.get("why", "")
-                    else:
-                        kf = match_known(known, pid, viol["key"])
-                        if kf:
-                            known_hits.append(dict(id=kf.get("id"), what=kf["what"], obligation=ob["name"]))
-                            ob["verdict"] = "known-finding"
-                        else:
-                            path = save_replay(pid, viol["payload"])
-                            violations.append(dict(obligation=ob["name"], replay=path, what=viol["key"]))
-                native_validations += ob.pop("native_validations", 0)
                 obligations.append(ob)
     finally:
         scratch.remove_scratch(sc)
